@@ -81,9 +81,12 @@ impl<'a> U<'a> {
                 (0..n).map(|i| b.wrapping_add(i as u8)).collect()
             }
             _ => {
-                let n = (self.u8() as usize).min(self.d.len().saturating_sub(self.p)).min(max);
-                let v = self.d[self.p..self.p + n].to_vec();
-                self.p += n;
+                let start = self.p.min(self.d.len());
+                let n = (self.u8() as usize).min(self.d.len() - start).min(max);
+                let start = self.p.min(self.d.len());
+                let n = n.min(self.d.len() - start);
+                let v = self.d[start..start + n].to_vec();
+                self.p = start + n;
                 v
             }
         }
@@ -161,7 +164,7 @@ fn decode_ser_case(u: &mut U) -> SerCase {
     let hash = u.u64();
     let sequence = u.u64();
     let kv = match u.u8() % 5 {
-        0 => Kv::U64Bytes(u.u64(), u.payload(70_000)),
+        0 => Kv::U64Bytes(u.u64(), u.payload(17_000)),
         1 => {
             let k = String::from_utf8_lossy(&u.payload(20)).into_owned();
             let v = String::from_utf8_lossy(&u.payload(300)).into_owned();
@@ -363,7 +366,7 @@ pub fn campaign(check: &Check, target: &str, runs: u64, max_len: usize) {
             .arg(&bin)
             // decoders ask the allocator for implausible sizes on purpose (try_reserve) and turn the refusal into an
             // error: the sanitizer must return null for those instead of aborting
-            .env("ASAN_OPTIONS", "allocator_may_return_null=1:detect_odr_violation=0:max_allocation_size_mb=2048")
+            .env("ASAN_OPTIONS", "allocator_may_return_null=1:detect_odr_violation=0:max_allocation_size_mb=512")
             .arg(&corpus)
             .arg(seed_dir(target))
             .arg(format!("-runs={per_job}"))
@@ -373,6 +376,7 @@ pub fn campaign(check: &Check, target: &str, runs: u64, max_len: usize) {
             .arg("-print_final_stats=1")
             .arg("-reload=1")
             .arg("-rss_limit_mb=4096")
+            .arg("-malloc_limit_mb=1024")
             .arg(format!("-artifact_prefix={artifacts}/"))
             .stdout(std::process::Stdio::piped())
             .stderr(std::process::Stdio::piped())
